@@ -1050,7 +1050,15 @@ def parse_primary_expr(lexer, unary_minus=False):
         elif token.value == "continue" and token.type == "keyword":
             result = NodeContinue(token.pos)
         elif token.value == "return" and token.type == "keyword":
-            if lexer.peekn(1, ";", "interpunction"):
+            if (
+                not lexer.hasNext()
+                or lexer.peekn(1, ";", "interpunction")
+                or lexer.peekn(1, "end", "keyword")
+                or lexer.peekn(1, "catch", "keyword")
+                or lexer.peekn(1, "finally", "keyword")
+            ):
+                # a value-less return; the ; after it is as optional as
+                # after any other last statement of a block
                 result = NodeReturn(None, token.pos)
             else:
                 result = NodeReturn(parse_expression(lexer), token.pos)
